@@ -218,7 +218,8 @@ def _run_hypothesis(part, n, seed, stats, open_sigs, pid, tier):
     except BaseException as e:  # flaky / internal problems: harness error unless we hold a failure
         if state["best"] is None:
             raise
-        sys.stderr.write("note: hypothesis ended with %s after a failure was recorded\n" % type(e).__name__)
+        sys.stderr.write("note: hypothesis ended with %s after a failure was recorded\n%s\n" % (
+            type(e).__name__, traceback.format_exc()[-1500:]))
     if state["best"] is not None:
         stats.violation = state["best"]
 
